@@ -13,6 +13,7 @@ tofl = z3.Function('tofl', PyVal, Fl)
 tocx = z3.Function('tocx', PyVal, Cx)
 toint = z3.Function('toint', PyVal, z3.IntSort())
 todt = z3.Function('todt', PyVal, z3.IntSort())
+nonfinite = z3.Function('nonfinite', PyVal, z3.BoolSort())     # nan or +-inf
 reduce_f = z3.Function('reduce_f', z3.IntSort(), z3.IntSort(), PyVal)   # reduction id, seq class
 
 REDUCE = {'sum': 0, 'min': 1, 'max': 2, 'all': 3, 'any': 4, 'sorted': 5}
@@ -76,6 +77,22 @@ def merge_vals(rets):
         return VAny(t)
     if all(v is vals[0] for v in vals):
         return vals[0]
+    sents = [v for v in vals if isinstance(v, VObj) and v.tag == 'sentinel'] + \
+            [v.sentinel for v in vals if isinstance(v, VTagged)]
+    if sents and all(v is sents[0] for v in sents) and \
+            all(isinstance(v, (VNone, VBool, VInt, VStr, VAny, VTagged)) or v is sents[0] for v in vals):
+        tag = z3.BoolVal(False)
+        t = PyVal.PNone
+        for c, v in reversed(rets):
+            if v is sents[0]:
+                tag = z3.If(c, z3.BoolVal(True), tag)
+            elif isinstance(v, VTagged):
+                tag = z3.If(c, v.tag, tag)
+                t = z3.If(c, v.val.t, t)
+            else:
+                tag = z3.If(c, z3.BoolVal(False), tag)
+                t = z3.If(c, to_pyval(v), t)
+        return VTagged(tag, sents[0], VAny(t))
     raise Unsupported(f'cannot merge {[type(v).__name__ for v in vals]}')
 
 
@@ -621,7 +638,6 @@ def call_kind(I, f, args, kwargs):
             return VInt(val(a.t))
         t = to_pyval(a)
         # int(float) is partial: nan raises ValueError, +-inf raises OverflowError
-        nonfinite = z3.Function('nonfinite', PyVal, z3.BoolSort())
         if I.ex.choose(z3.And(PyVal.is_PF(t), nonfinite(t))):
             I.raise_(ValueError)
         return VInt(z3.If(int_like(t), int_of(t), toint(t)))
@@ -1059,6 +1075,16 @@ def b_combine(I, f, args, kw):
     return VAny(PyVal.PDT(todt(t)))
 
 
+def b_isfinite(I, f, args, kw):
+    x = args[0]
+    if isinstance(x, (VInt, VBool)):
+        return VBool(True)
+    t = to_pyval(x)
+    if not I.ex.choose(z3.Or(PyVal.is_PF(t), int_like(t))):
+        I.raise_(TypeError)
+    return VBool(z3.Not(z3.And(PyVal.is_PF(t), nonfinite(t))))
+
+
 def b_opaque(tag):
     def h(I, f, args, kw):
         return VOpaque(tag)
@@ -1073,5 +1099,5 @@ BUILTINS = {
     'getattr': b_getattr, 'symmethod': b_symmethod, 'hasattr': b_hasattr, 'id': b_id,
     'hash': b_hash, 'callable': b_callable, 'iter': b_iter, 'next': b_next, 'repr': b_repr,
     'sorted': b_sorted, 'reversed': b_reversed, 'abs': b_abs, 'print': b_print,
-    'combine': b_combine, 'time': b_opaque('time'),
+    'combine': b_combine, 'isfinite': b_isfinite, 'time': b_opaque('time'),
 }
